@@ -36,8 +36,10 @@ def jobs_for(shapes: list, seed: int) -> list:
         ts = CH.types_of_kind(s["kind"])
         if len(s["series"]) != 1:
             ts = [t for t in ts if "PIE" not in t]
-        for k, site in enumerate(("AddChart", "ReplaceData", "ReuseData")):
+        for k, site in enumerate(("AddChart", "ReplaceData", "ReuseData", "StagedData")):
             if site == "ReuseData" and len(s["series"]) < 2:
+                continue
+            if site == "StagedData" and (not s["series"] or (s["kind"] == "cat" and len(s["cats"]) < 2 and not any(c["subs"] for c in s["cats"]))):
                 continue
             jobs.append(("%d:%s" % (i, site), s, site, ts[(i + k + seed) % len(ts)], i + seed))
     # the PowerPoint-authored charts of the corpus (supported plot families; the bar+line chart among them): replace_data with two shapes each
@@ -50,6 +52,14 @@ def jobs_for(shapes: list, seed: int) -> list:
         for k in range(2):
             s = pool[(n * 7 + k * 131 + seed) % len(pool)]
             jobs.append(("c%d.%d:ReplaceData" % (n, k), s, "ReplaceData", "corpus:%s#%d" % (c[0], c[1]), n + seed))
+        if len(c[3]) > 1:
+            # a multi-plot chart: every series count from one to one more than it holds (surplus series go plot by plot from the end, a
+            # plot left without series goes too: every cut between and inside the plots)
+            for cnt in range(1, sum(c[3]) + 2):
+                cands = [s for s in pool if len(s["series"]) == cnt]
+                if cands:
+                    s = cands[(n + cnt + seed) % len(cands)]
+                    jobs.append(("c%d.n%d:ReplaceData" % (n, cnt), s, "ReplaceData", "corpus:%s#%d" % (c[0], c[1]), n + seed))
     return jobs
 
 
@@ -200,7 +210,7 @@ def main() -> int:
         need_col = 703 if thorough else 27
         if maxcol < need_col or maxdepth < 4 or kinds != {"cat", "xy", "bubble"} or not tot.get("points") or tot.get("cols") != 16384:
             raise E.MachineryError("vacuous: maxcol=%d depth=%d kinds=%s points=%s cols=%s" % (maxcol, maxdepth, kinds, tot.get("points"), tot.get("cols")))
-        if not {"AddChart", "ReplaceData", "ReuseData"} <= {r["site"] for r in nontrivial}:
+        if not {"AddChart", "ReplaceData", "ReuseData", "StagedData"} <= {r["site"] for r in nontrivial}:
             raise E.MachineryError("vacuous: a site was never observed")
     smp = [r for r in nontrivial if r["data"]["kind"] == "bubble" and len(r["obs"]["sers"]) == 3][:1] + \
           [r for r in nontrivial if len(r["obs"]["sers"][0]["cat"]["lvls"]) == 3][:1]
